@@ -14,6 +14,8 @@ from .fsworld import TypeDef, o
 G = W.G
 CWD = '/tmp'
 PLACES = ['{n}.ts', 'sub/{n}.ts', 'sub/deep/{n}.ts', '../up/{n}.ts', 'shared.ts']
+# placements per type index: several types may share `shared.ts`
+MENUS = [['{n}.ts', 'shared.ts'], ['{n}.ts', 'shared.ts', 'sub/{n}.ts'], ['shared.ts', '../up/{n}.ts'], ['sub/deep/{n}.ts', 'shared.ts']]
 
 
 def explore(item):
@@ -30,8 +32,9 @@ def explore(item):
         tdefs = []
         for i in range(n):
             deps = [j for j in range(n) if (edge_mask_fixed[i][j] if edge_mask_fixed[i][j] is not None else ctx.decide(edges[i][j]))]
-            exp = True if i == 0 else ctx.decide(exportable[i])
-            pl = PLACES[ctx.pick(placev[i], 3 if i else 2)] if i < 2 else PLACES[(i + 1) % len(PLACES)]
+            exp = True if i < n - 1 else ctx.decide(exportable[i])       # the last type may be non-exportable
+            menu = MENUS[min(i, len(MENUS) - 1)]
+            pl = menu[ctx.pick(placev[i], len(menu))] if len(menu) > 1 else menu[0]
             tdefs.append(TypeDef(names[i], pl.format(n=names[i]) if exp else None, deps))
         m = W.machine(ctx, cfg, CWD, base if root_entry != 'export_all_to' else None)
         W.install(m, tdefs)
@@ -144,8 +147,8 @@ def main():
                 (('export_all', None), ('export_all', 'out'), ('export_all_to', '/tmp/o/./x/..'), ('export_all_to', 'rel/dir/')):
             for cfg in (['plain'] if quick else ['plain', 'esm']):
                 items.append((cfg, entry, base, n, mask))
-    rep.bounds = {'types': n, 'adjacency_matrix': f'all {n}x{n} boolean matrices (self-loops, cycles, diamonds)', 'exportability': 'symbolic for non-root types',
-                  'placements': PLACES, 'pre-existing files': ['<base>/keep.txt', '<base>/sub/other.ts', '/tmp/outside.txt'],
+    rep.bounds = {'types': n, 'adjacency_matrix': f'all {n}x{n} boolean matrices (self-loops, cycles, diamonds)', 'exportability': 'symbolic for the last type',
+                  'placements per type': MENUS, 'pre-existing files': ['<base>/keep.txt', '<base>/sub/other.ts', '/tmp/outside.txt'],
                   'entries': sorted({(i[1], str(i[2])) for i in items}), 'cells': len(items)}
     rep.outside += ['the generated output_path() (trailing-/ rule, export_to expressions): derive output, tier B',
                     'dependencies reachable only through generic arguments / inlined / flattened / `as` types: what visit_dependencies '
